@@ -1,0 +1,17 @@
+//go:build verif
+
+package errpos
+
+// Contracts for contract-based verification (/verif). The wrappers keep nil-ness: a non-nil error
+// stays non-nil. They go through errors.As, whose effect on its target is library behaviour, so
+// these two contracts are ASSUMPTIONS (listed in the evidence), not checked.
+
+//@ func AddPosition
+//@   opt assumed errors.As
+//@   modifies nothing
+//@   ensures (result != nil) <==> (err != nil)
+
+//@ func AddContext
+//@   opt assumed errors.As
+//@   modifies nothing
+//@   ensures (result != nil) <==> (err != nil)
